@@ -8,6 +8,7 @@ import (
 	"net"
 	"sort"
 	"strings"
+	"sync"
 	"testing"
 	"time"
 
@@ -409,4 +410,101 @@ func TestHTTPPathAllowLists(t *testing.T) {
 			}
 		}
 	}
+}
+
+// TestConcurrentRequestsOnFreshSessions: routing must not depend on what else happens on the session. A server with twelve
+// channels (eight of them on the allow-list) is asked, by a fresh client each round, for eight drawn names at the same
+// instant - the first streams of a new physical session. Every allowed name must reach its own target, every other
+// name must be refused, in every round.
+func TestConcurrentRequestsOnFreshSessions(t *testing.T) {
+	rounds := vlib.Pick(400, 6000)
+	var names, allow []string
+	targets := map[string]*vlib.Target{}
+	var chans []vlib.ChannelSpec
+	for i := 0; i < 12; i++ {
+		n := fmt.Sprintf("c%02d", i)
+		names = append(names, n)
+		if i%3 != 2 {
+			allow = append(allow, n)
+		}
+		tg := vlib.NewTarget("target["+n+"]", vlib.BannerEchoHandler)
+		targets[n] = tg
+		defer tg.Close()
+		chans = append(chans, vlib.ChannelSpec{Name: n, Target: tg.URL()})
+	}
+	p, err := vlib.StartPair(vlib.PairConfig{Carrier: vlib.CarTCP, Channels: chans, AllowList: allow, Listeners: []vlib.ListenerSpec{{Channel: names[0]}}})
+	if err != nil {
+		if vlib.IsBindError(err) {
+			vlib.Rec.Inconclusive("bind")
+			return
+		}
+		t.Fatalf("pair start: %v", err)
+	}
+	defer p.Close()
+	allowed := map[string]bool{}
+	for _, n := range allow {
+		allowed[n] = true
+	}
+	for round := 0; round < rounds; round++ {
+		// eight names per round, chosen by a fixed stride so that every round differs and all names take part
+		var ask []string
+		for k := 0; k < 8; k++ {
+			ask = append(ask, names[(round*5+k*7)%len(names)])
+		}
+		ec, err := p.AddClient(names...)
+		if err != nil {
+			vlib.Rec.Inconclusive("extra client")
+			continue
+		}
+		outcomes := make([]string, len(ask))
+		var wg sync.WaitGroup
+		start := make(chan struct{})
+		for i, n := range ask {
+			wg.Add(1)
+			go func(i int, n string) {
+				defer wg.Done()
+				<-start
+				c, err := ec.Dial(n)
+				if err != nil {
+					outcomes[i] = "dial-error " + err.Error()
+					return
+				}
+				defer c.Close()
+				c.SetDeadline(time.Now().Add(10 * time.Second))
+				line, err := bufio.NewReader(c).ReadString('\n')
+				switch {
+				case err == nil:
+					outcomes[i] = "served:" + strings.TrimSuffix(line, "\n")
+				case line == "":
+					if ne, ok := err.(net.Error); ok && ne.Timeout() {
+						outcomes[i] = "stalled"
+					} else {
+						outcomes[i] = "refused"
+					}
+				default:
+					outcomes[i] = "garbled " + line
+				}
+			}(i, n)
+		}
+		close(start)
+		wg.Wait()
+		ec.Close()
+		if round%20 == 0 {
+			vlib.Rec.Case(fmt.Sprintf("fresh-session round %d %v", round, ask), true, []string{"kind:tcp", "concurrent-requests-on-fresh-session"}, func() interface{} {
+				return map[string]interface{}{"round": round, "asked_at_the_same_instant": ask, "outcomes": outcomes}
+			})
+		}
+		for i, n := range ask {
+			want := "refused"
+			if allowed[n] {
+				want = "served:target[" + n + "]"
+			}
+			if outcomes[i] != want {
+				msg := fmt.Sprintf("round %d: eight requests %v at the same instant on a fresh session; request %d for %q: expected %s, got %s", round, ask, i, n, want, outcomes[i])
+				vlib.Rec.Violation(map[string]interface{}{"property": "C03", "test": "concurrent-requests-on-fresh-session", "round": round, "asked": ask, "outcomes": outcomes, "problem": msg})
+				t.Fatalf("C03 %s", msg)
+			}
+		}
+	}
+	vlib.Rec.Extra("fresh_session_rounds", rounds)
 }
